@@ -320,9 +320,10 @@ func (c *fakeClock) After(d time.Duration) <-chan time.Time {
 }
 
 type fakeSchedule struct {
-	log  *evlog
-	n    int64
-	zero bool // every second answer is exactly 0 ("due now"): still one After per refresh, still waits for the tick
+	log   *evlog
+	n     int64
+	zero  bool // every second answer is exactly 0 ("due now"): still one After per refresh, still waits for the tick
+	clock *fakeClock
 }
 
 func (s *fakeSchedule) dur(n int64) int64 {
@@ -332,8 +333,13 @@ func (s *fakeSchedule) dur(n int64) int64 {
 	return n * 1000
 }
 
-func (s *fakeSchedule) UntilNext(time.Time) time.Duration {
+func (s *fakeSchedule) UntilNext(now time.Time) time.Duration {
 	s.n++
+	// the schedule is asked about the present: the clock's reading at the time of the call (after the refresh
+	// that has just finished - refreshes take time), not a reading remembered from before
+	if s.clock != nil && !now.Equal(s.clock.now) {
+		s.log.add("schedule consulted about %d s, the clock reads %d s", now.Unix(), s.clock.now.Unix())
+	}
 	s.log.add("until#%d %d", s.n, s.dur(s.n))
 	return time.Duration(s.dur(s.n))
 }
@@ -365,9 +371,13 @@ type fakeRefresher struct {
 	// startCancelled: the scenario cancelled the context given to Start (refresh contexts derived from it are
 	// then done from the beginning; the refreshes must happen all the same)
 	startCancelled bool
+	clock          *fakeClock
 }
 
 func (f *fakeRefresher) Refresh(ctx context.Context) error {
+	if f.clock != nil {
+		f.clock.now = f.clock.now.Add(40 * time.Second) // a refresh takes time
+	}
 	id, _ := ctx.Value(ctxKey{}).(int)
 	f.log.add("refresh ctx=%d", id)
 	f.ctxs = append(f.ctxs, ctx)
@@ -435,9 +445,9 @@ func runRefresh(c refCase) (what string, checks int) {
 		startCtx, cancelStart := context.WithCancel(context.WithValue(context.Background(), "which", "start"))
 		defer cancelStart()
 		clock := &fakeClock{log: log, now: time.Unix(1000, 0)}
-		sched := &fakeSchedule{log: log, zero: c.ZeroDelays}
+		sched := &fakeSchedule{log: log, zero: c.ZeroDelays, clock: clock}
 		cons := &fakeCons{log: log, parent: startCtx}
-		refr := &fakeRefresher{log: log, outcomes: outcomes, parkAt: -1, gate: make(chan struct{})}
+		refr := &fakeRefresher{log: log, outcomes: outcomes, parkAt: -1, gate: make(chan struct{}), clock: clock}
 		if c.TickInFinal && c.OnShutdown {
 			refr.parkAt = len(c.Ticks)
 		}
